@@ -4,6 +4,8 @@ import SaModel.Lemmas.C03Assemble
 import SaModel.Lemmas.C03WFMain
 import SaModel.Lemmas.C03New
 import SaModel.Lemmas.C03Shape
+import SaModel.Lemmas.C03Faithful
+import SaModel.Lemmas.Utf8
 /-
 C03 — every produced array is a well-formed Arrow array of the declared field.
 
@@ -213,6 +215,27 @@ theorem map_three_children_not_wf :
   ⟨.mk "m" (.map (.mk "entries" (.struct (.cons (.mk "key" .int32 false []) (.cons (.mk "value" .int32 false [])
       (.cons (.mk "extra" .int32 false []) .nil)))) false []) false) false [], _, _, rfl, rfl, by decide⟩
 
+/-- **finding (Dictionary with a floating-point key type).**  `build_builder` accepts any key type; a `Float32` /
+`Float64` keys builder accepts the `u64` index the dictionary builder pushes (`serialize_u64` as float), so the field
+is accepted and the produced dictionary array has float keys: not a valid Arrow dictionary (no slot decodes). -/
+theorem dictionary_float_keys_not_wf :
+    ∃ (f : Field) (b0 b : B) (a : Arr), newB "$.d" f = .ok b0 ∧ push {} b0 (.str "") = .ok b ∧ finish {} b = .ok a ∧
+      WF f a = false := by
+  refine ⟨.mk "d" (.dictionary .float32 .utf8) false [],
+    .dictionary "$.d" (.leaf "$.d.key" .f32 none []) (.bytes "$.d.value" .utf8 none [0] []) [],
+    .dictionary "$.d" (.leaf "$.d.key" .f32 none [0]) (.bytes "$.d.value" .utf8 none [0, 0] []) [""],
+    .dictionary (.prim .float32 none [0]) (.bytes .utf8 none [0, 0] []), by decide, ?_, ?_, by decide⟩
+  · have hp : pushScalar {} (.bytes "$.d.value" .utf8 none [0] []) (.str "") =
+        .ok (.bytes "$.d.value" .utf8 none [0, 0] []) := by
+      simp [pushScalar, isUtf8Ty, scalarToString, strBytes, setValidity, duplicateLast, incrementLast, bind,
+        Except.bind, offMax, isLargeTy, pure, Except.pure]
+    have hk : pushScalar {} (.leaf "$.d.key" .f32 none []) (.int .u64 0) = .ok (.leaf "$.d.key" .f32 none [0]) := by
+      decide
+    simp only [push]
+    rw [pushScalar]
+    simp [hp, hk, indexOfName, indexOfName.go, ctx, bind, Except.bind, pure, Except.pure]
+  · simp [finish, finishLeaf, finishValidity, B.isNullable, B.rows, bind, Except.bind, pure, Except.pure]
+
 /-- **known finding (FixedSizeBinary(0))**, well-formedness side: a nullable `FixedSizeBinary(0)` column with one
 row finishes into an array whose length (0) does not cover its bitmap (1 byte) -/
 theorem fixedSizeBinary0_not_wf :
@@ -222,6 +245,26 @@ theorem fixedSizeBinary0_not_wf :
   · simp [WFB, VLen]
   · simp [Lemmas.C03.BuiltFor]
   · simp [finish, finishValidity, packBits, packByte, List.zipIdx]
+
+/-! ### where `Faithful` / `Sound` / the UTF-8 part of `WFX` come from -/
+
+/-- every string a builder receives is valid UTF-8 (Rust: `&str` by type; model: a Lean `String`) -/
+theorem validUtf8_strBytes (s : String) : validUtf8 (strBytes s) = true := Lemmas.Utf8.validUtf8_strBytes s
+
+/-- `ShapeOK` (no `FixedSizeBinary(0)`, integer dictionary keys) holds of the builder of a `SchemaOK` type … -/
+theorem BuiltFor_ShapeOK (b : B) (dt : DataType) (nl : Bool) (hb : Lemmas.C03.BuiltFor dt nl b)
+    (hs : Lemmas.C03.SchemaOK dt) : Lemmas.C03.ShapeOK b :=
+  Lemmas.C03.BuiltFor_ShapeOK b dt nl hb hs
+
+/-- … and is a property of the shape only (so `push_takeRest` preserves it) -/
+theorem ShapeOK_of_takeRest_eq (b b' : B) (h : takeRest b' = takeRest b) (hb : Lemmas.C03.ShapeOK b) :
+    Lemmas.C03.ShapeOK b' :=
+  Lemmas.C03.ShapeOK_of_takeRest_eq b b' h hb
+
+/-- with the strict dictionary clause of the state invariant (`StrictDict`: no key designates a missing value) a
+`ShapeOK` builder is `Faithful` — hence `Sound` (`Faithful_Sound`) -/
+theorem Faithful_of_strict (b : B) (hs : Lemmas.C03.StrictDict b) (ho : Lemmas.C03.ShapeOK b) : Lemmas.C03.Faithful b :=
+  Lemmas.C03.Faithful_of_strict b hs ho
 
 /-! ### C03 for `to_marrow` -/
 
